@@ -1626,7 +1626,12 @@ fn classify_outline(c: &Case, exp: &[Pts], got: &[Pts]) -> &'static str {
         // a 2.14 scale: the shape differs by more than the derived tolerance
         return if c.raw.abs() > 2.0 { "clamped" } else { "mismatch" };
     }
-    if novel.iter().any(|v| *v == 32767.0 || *v == -32768.0) && lost.iter().any(|v| *v > 32767.0 || *v < -32768.0) {
+    let lost_out = lost.iter().any(|v| *v > 32767.0 || *v < -32768.0);
+    if lost_out && gotc.iter().any(|v| *v == 32767.0 || *v == -32768.0) {
+        return "clamped";
+    }
+    // clamped to a bound and then displaced by 2^16 (the difference to the neighbour wrapped as well)
+    if lost_out && novel.iter().any(|n| [32767.0, -32768.0].iter().any(|b| (n - b).rem_euclid(65536.0) == 0.0)) {
         return "clamped";
     }
     // a coordinate that is off by a multiple of 2^16: a 16-bit value or difference wrapped around
@@ -1708,7 +1713,9 @@ fn judge(c: &Case, bytes: &[u8]) -> Result<Judged, String> {
                         let novel: Vec<f64> = g.iter().copied().filter(|v| !e.contains(v)).collect();
                         let d0: Vec<f64> = default.iter().flatten().flat_map(|p| [p.0, p.1]).collect();
                         let want = c.raw;
-                        if novel.iter().any(|n| d0.iter().any(|d| n - d == 32767.0 || n - d == -32768.0)) {
+                        if novel.iter().any(|n| e.iter().any(|x| n != x && (n - x).rem_euclid(65536.0) == 0.0)) {
+                            "wrapped"
+                        } else if novel.iter().any(|n| d0.iter().any(|d| n - d == 32767.0 || n - d == -32768.0)) {
                             "clamped"
                         } else if novel.iter().any(|n| d0.iter().any(|d| n - d == wrap(want, 16, true))) {
                             "wrapped"
